@@ -173,6 +173,42 @@ fn coverage_case(run: &Run, mask: u32, mode: u8, l: &mut Local) {
         run.violation(&format!("{name}: coverage iteration differs (format {fmt})"), &format!("glyphs {glyphs:?}: iter = {listed:?}"), case);
         return;
     }
+    // set-level membership (`intersects`, both of its search strategies: a query set that is small
+    // or large relative to the table) and the member count
+    {
+        use read_fonts::collections::IntSet;
+        use read_fonts::types::GlyphId;
+        let uni = universe();
+        let mut queries: Vec<Vec<u32>> = uni.iter().map(|g| vec![*g as u32]).collect();
+        queries.push(uni.iter().map(|g| *g as u32).collect());
+        queries.push(uni.iter().filter(|g| !glyphs.contains(g)).map(|g| *g as u32).collect());
+        queries.push(glyphs.iter().map(|g| *g as u32).collect());
+        queries.push(wide_queries(&glyphs));
+        queries.push(uni.iter().filter(|g| !glyphs.contains(g)).map(|g| *g as u32).chain(glyphs.last().map(|g| *g as u32)).collect());
+        queries.push(vec![]);
+        for q in queries {
+            let set: IntSet<GlyphId> = q.iter().map(|g| GlyphId::new(*g)).collect();
+            let want = q.iter().any(|g| *g <= 0xFFFF && glyphs.contains(&(*g as u16)));
+            let got = read.intersects(&set);
+            if got != want {
+                let shown: Vec<String> = q.iter().take(8).map(|g| format!("{g:#x}")).collect();
+                run.violation(
+                    &format!("{name}: CoverageTable::intersects answer differs from the set (format {fmt})"),
+                    &format!("glyphs {glyphs:?}: intersects({} ids: {}..) = {got}, want {want}", q.len(), shown.join(",")),
+                    case,
+                );
+                return;
+            }
+        }
+        let pop = match &read {
+            rl::CoverageTable::Format1(t) => t.population(),
+            rl::CoverageTable::Format2(t) => t.population(),
+        };
+        if pop != glyphs.len() {
+            run.violation(&format!("{name}: coverage population differs (format {fmt})"), &format!("glyphs {glyphs:?}: population = {pop}"), case);
+            return;
+        }
+    }
     let mut h = Fnv::new();
     h.str("cov");
     h.u64(fmt);
@@ -263,6 +299,15 @@ fn classdef_case(run: &Run, assign: &[(u16, u16)], mode: u8, l: &mut Local) {
             run.violation(&format!("{name}: class query differs (format {fmt})"), &format!("{assign:?}: get({g}) = {got}, want {want}"), case);
             return;
         }
+    }
+    // enumeration of the table: the non-zero assignments, each exactly once (format 1 also lists the
+    // class-0 glyphs inside its span; those carry no information)
+    let mut listed: Vec<(u16, u16)> = read.iter().filter(|(_, c)| *c != 0).map(|(g, c)| (g.to_u16(), c)).collect();
+    listed.sort();
+    let want: Vec<(u16, u16)> = assign.iter().copied().filter(|a| a.1 != 0).collect();
+    if listed != want {
+        run.violation(&format!("{name}: class def iteration differs (format {fmt})"), &format!("{assign:?}: iter (non-zero) = {listed:?}"), case);
+        return;
     }
     // (ClassDef::get takes GlyphId16 only, so there is no 32-bit query to make here)
     let mut h = Fnv::new();
